@@ -13,6 +13,10 @@ NOTE = ("Trusted base: the vsched scheduler/explorer and the vinstr source rewri
         "bounded thread/message/history sizes as listed in the evidence file.")
 
 CLAIMED = {
+    "C14": (H + " (sequential part: BFS keyed on ring geometry) + " + S + " (concurrent part, brute-force linearizability check of every explored history against the FIFO model)", "Sequential: every operation sequence up to depth 20 (quick) / 34 (thorough) from initial sizes 1..4 with state key (mod, head, tail, len), each return value compared with a slice model. Concurrent: 2 threads x 1-2 operations and 3 threads x 1 operation from 8 start states (empty, full, wrapped, about to grow), all schedules (unbounded search finished); every call/return history checked for linearizability.", "§5 C14"),
+    "C01": (S, "Exactly-once / content / per-sender order of delivery through the real Inbox+RingBuffer (1-3 sender threads, 2-5 messages, initial ring sizes 1-4 so that the ring grows while wrapped), and through the public engine API; deviation bound 2-3 (unbounded where the search finishes).", "§5 C01"),
+    "C02": (S, "At most one worker inside Invoke/Receive per actor and each invocation happens-after the previous one (vector clocks over the real synchronisation edges), under all schedules up to deviation bound 3 with a Processer that yields inside Invoke.", "§5 C02"),
+    "C05": (S, "Every history over {ok message, panics-once, always-panics} up to length 3 (quick) / 4 (thorough) within the restart budget, issued as one batch and by a racing driver thread, restart delay 0 and >0 (virtual time), deviation bound 1 (quick) / 2 (thorough): no escaped panic, Stopped to the failed incarnation, one ActorRestartedEvent per failure with the right count, fresh incarnation, queued messages redelivered in order exactly once, failing message not redelivered, bystander unaffected.", "§5 C05"),
     # id: (technique, level text, design ref)
     "C03": (S, "All interleavings of Send (push, try-schedule), Start and the worker's last empty pop / running->idle CAS / Len re-check on the real Inbox+RingBuffer: unbounded (all schedules) for up to 3 threads, deviation bound 3 beyond; every quiescent end state must be idle with an empty ring and every pushed message invoked.", "§5 C03"),
 }
